@@ -27,4 +27,22 @@ def ofLE : List Nat → Nat
 /-- two's complement: the unsigned `bits`-bit number with the same bits as the integer `v` -/
 def twos (bits : Nat) (v : Int) : Nat := if 0 ≤ v then v.toNat else (v + (2 ^ bits : Nat)).toNat
 
+/-- the number denoted by a string of decimal digit characters (`'0'` = 48), most significant first -/
+def decValue (ds : List Nat) : Nat := ds.foldl (fun a c => a * 10 + (c - 48)) 0
+
+def IsDigitChar (c : Nat) : Prop := 48 ≤ c ∧ c ≤ 57
+def IsSpaceChar (c : Nat) : Prop := c = 32 ∨ (9 ≤ c ∧ c ≤ 13)
+
+/-- `text` is a decimal numeral in the sense of C++ stream extraction: white space, an optional sign, at least one
+digit and **nothing else**; `neg` tells whether the sign was `-`, `mag` is the number the digits denote -/
+def IsNumeral (text : List Nat) (neg : Bool) (mag : Nat) : Prop :=
+  ∃ ws sg ds, text = ws ++ sg ++ ds ∧ (∀ c ∈ ws, IsSpaceChar c) ∧
+    ((sg = [] ∧ neg = false) ∨ (sg = [43] ∧ neg = false) ∨ (sg = [45] ∧ neg = true)) ∧
+    ds ≠ [] ∧ (∀ c ∈ ds, IsDigitChar c) ∧ mag = decValue ds
+
+/-- the value a numeral denotes for a `bits`-bit destination: C++ stream extraction negates an unsigned
+destination modulo `2^bits` (`"-1"` read into `unsigned short` is 65535) -/
+def numeralValue (signed : Bool) (bits : Nat) (neg : Bool) (mag : Nat) : Int :=
+  if neg then (if signed then -(mag : Int) else ((2 ^ bits - mag) % 2 ^ bits : Nat)) else mag
+
 end Fcppt.C15.Spec
